@@ -16,6 +16,12 @@ The generated definitions are used in two ways:
     equivalent rewrite of the same arithmetic still proves.
 Floats: `math.ceil(a / b)`, `math.floor(a / b)` and `int(a / b)` are translated to exact integer
 division (trusted base: operands below 2^53 and non-negative, divisor positive).
+
+Kernel kinds besides the expression kernels: `regex`, `strings`, and `loop` (whole functions translated
+statement by statement; the Python subset — file loops, loops over lists of integers, loops over
+(file, size) pairs, `list(range())`, `remove`, `in`, `xs[i]`, `set()/add/sorted`, comparison with
+`[file]`, literal defaults, results stored in an attribute, message strings — is listed in the comment
+block above `_LOOP_LEAN_TYPES`).
 """
 import ast
 import os
@@ -623,10 +629,44 @@ def translate_strings(repo, k):
 # assigned inside BODY but not before the loop are local to one iteration (reading one that is not assigned on the
 # current path is refused).  Everything else — other statements, calls, attribute reads, nested loops, `for … else`,
 # tuple targets, aliasing of lists — raises CannotTranslate and the committed snapshot of the kernel is kept.
+#
+# Second batch (lists of integers, pairs, functions whose result is stored in an attribute); types: `Ints` = a Python
+# list of integers (`List Int`), `IntSet` = a set of integers that is only added to (`List Int`: the added values):
+#
+#     xs = list(range(a, b)) / list(range(b))        let xs : List Int := Torf.Loop.pyRange a b
+#     xs = [e1, e2] / ys = list(xs) / tuple(xs)      list display of integers or of files; a copy has the same elements; a
+#                                                    tuple of files has its own type (`FilesT`: readable, returnable, but no
+#                                                    append / remove / `==` with a list)
+#     xs.append(e) / xs.remove(e)   (xs : Ints)      xs ++ [e] / if xs.contains e then let xs := xs.erase e; ⟦rest⟧
+#                                                                else .raised "ValueError"     (first occurrence)
+#     e in xs / e not in xs / len(xs) / if xs:       List.contains xs e / … / List.length / !xs.isEmpty
+#     x = xs[e]                     (xs : Ints)      Out.bind (Out.ofOption (Torf.Loop.getIdx xs e) "IndexError") fun x => ⟦rest⟧
+#     fs == [file] / fs != [file] / xs == ys         decide (fs = [file]) …  — only between *lists*: a local that may hold
+#                                                    a tuple (an argument; assigned a tuple display / tuple(…)) is refused
+#     s = set() / s.add(e) / sorted(s)               let s : List Int := [] / s ++ [e] / Torf.Loop.sortedSet s
+#     for x in xs: BODY             (xs : Ints)      <name>.loop <unchanged locals, alphabetically> : List Int →
+#                                                    <assigned locals, alphabetically> → Out _ ; x is a plain local of the
+#                                                    iteration (BODY may re-assign it); xs itself must not be changed
+#     self.other(a)   (b left to its default)        the literal default (True / False / integer) written in the signature
+#                                                    of `other` is passed
+#   kernels with `pairs=True, files='<argument>'` (the argument is a list of (file, size) pairs; it becomes `sizes`):
+#     for a, b in <pairs>: BODY                      as `for file in files`, `a` the index of the pair, `b` its size; the
+#                                                    names may shadow an opaque argument (after the loop they are opaque)
+#     len(<pairs>) / <pairs>[c][0]  (c ≥ 0 literal)  List.length sizes / the file c behind `if c < length … else IndexError`
+#   kernels with `result='self.<attr>'` (an __init__: nothing is returned):
+#     self.<attr> = <value>                          .ret <value> — the one store to that attribute (checked) ends the
+#                                                    translation; what follows it is not part of the kernel
+#     self.<other> = <name or constant>              skipped if `self.<other>` is never read in the function
+#     msg = f'…{e}…' / msg += '…' + ', '.join(str(f) for f in xs)       *message expressions* (an f-string / string constant
+#                                                    / `+` of such) are not translated: the name becomes opaque; only the
+#                                                    bounds checks of the subscripts `xs[c]` in them are (`IndexError`);
+#                                                    everything in them must be on a white list (names, constants, + - *,
+#                                                    str() / repr(), '<sep>'.join(<generator over a list local>), xs[c]);
+#                                                    trusted: str() / format() of a value has no effect and does not raise
 # =====================================================================================================================
 
 _LOOP_LEAN_TYPES = {'Int': 'Int', 'Bool': 'Bool', 'File': 'Nat', 'Files': 'List Nat', 'IntPair': 'Int × Int',
-                    'Ints': 'List Int', 'IntSet': 'List Int'}
+                    'Ints': 'List Int', 'IntSet': 'List Int', 'FilesT': 'List Nat'}
 _LOOP_RESERVED = set('''
     sizes min max decide some none true false Int Nat List Bool String Option Prod fun let if then else match with do
     at from end open def theorem by have show in where instance structure inductive class namespace section import
@@ -684,7 +724,7 @@ class _LoopExpr(Tr):
                         return f'(List.sum (Torf.Loop.sliceTo sizes {self.int_(it.slice.upper)}))'
             raise CannotTranslate(f'sum expression {ast.unparse(n)}')
         if (isinstance(n, ast.Call) and ast.unparse(n.func) == 'len' and len(n.args) == 1 and not n.keywords
-                and isinstance(n.args[0], ast.Name) and self.types.get(n.args[0].id) in ('Files', 'Ints')):
+                and isinstance(n.args[0], ast.Name) and self.types.get(n.args[0].id) in ('Files', 'Ints', 'FilesT')):
             return f'((List.length {n.args[0].id} : Nat) : Int)'
         if (isinstance(n, ast.Call) and ast.unparse(n.func) == 'len' and len(n.args) == 1 and not n.keywords
                 and ast.unparse(n.args[0]) == self.files_src):
@@ -692,7 +732,7 @@ class _LoopExpr(Tr):
         return super().int_(n)
 
     def bool_(self, n):
-        if isinstance(n, ast.Name) and self.types.get(n.id) in ('Files', 'Ints') and self.atom(n) is None:
+        if isinstance(n, ast.Name) and self.types.get(n.id) in ('Files', 'Ints', 'FilesT') and self.atom(n) is None:
             return f'(!(List.isEmpty {n.id}))'
         if isinstance(n, ast.Compare) and len(n.ops) == 1 and self.atom(n) is None:
             op, l, r = n.ops[0], n.left, n.comparators[0]
@@ -748,14 +788,8 @@ class _LoopFn:
         self.messages = set()                   # locals that hold a message string (opaque, see `message_guards`)
         self.pairs = bool(k.get('pairs'))       # `files` is a list of (file, size) pairs: `for a, b in <files>`
         self.result = k.get('result')           # `self.<attr> = <value>` is what the function computes (an __init__)
-        # names that may hold a tuple (list-typed arguments; anything assigned a tuple display or tuple(…)): `==` refused
+        # list-typed arguments may be handed a tuple by the caller: `==` with a list is refused, and so are append / remove
         self.maybe_tuple = {p for p, t in k['params'] if t in ('Ints', 'Files')}
-        for n in ast.walk(self.fn):
-            if isinstance(n, (ast.Assign, ast.AugAssign, ast.AnnAssign)) and n.value is not None and any(
-                    isinstance(m, ast.Tuple) or (isinstance(m, ast.Call) and ast.unparse(m.func) == 'tuple')
-                    for m in ast.walk(n.value)):
-                for t in (n.targets if isinstance(n, ast.Assign) else [n.target]):
-                    self.maybe_tuple |= {m.id for m in ast.walk(t) if isinstance(m, ast.Name)}
 
     # ---- expressions -------------------------------------------------------------------------------------------
     def ex(self, env, loop):
@@ -872,7 +906,10 @@ class _LoopFn:
         if isinstance(v, (ast.List, ast.Tuple)) and v.elts:
             refs = [self.fileref(e, env) for e in v.elts]
             if all(r is not None for r in refs):
-                return '[' + ', '.join(refs) + ']', 'Files', self.pair_guards(v)
+                # a tuple of files is typed `FilesT`: no append / remove / comparison with a list on it
+                return '[' + ', '.join(refs) + ']', ('FilesT' if isinstance(v, ast.Tuple) else 'Files'), self.pair_guards(v)
+            if isinstance(v, ast.Tuple):
+                raise CannotTranslate(f'tuple of integers {ast.unparse(v)}')
             if not any(r is not None for r in refs):
                 e = self.ex(env, loop)
                 return '[' + ', '.join(e.int_(x) for x in v.elts) + ']', 'Ints', []
@@ -880,8 +917,10 @@ class _LoopFn:
         if isinstance(v, ast.Call) and not v.keywords and isinstance(v.func, ast.Name):
             f, a = v.func.id, v.args
             if f in ('list', 'tuple') and len(a) == 1:
-                if isinstance(a[0], ast.Name) and env.get(a[0].id) in ('Files', 'Ints'):
-                    return a[0].id, env[a[0].id], []                 # a copy: same elements
+                if isinstance(a[0], ast.Name) and env.get(a[0].id) in ('Files', 'FilesT'):
+                    return a[0].id, ('FilesT' if f == 'tuple' else 'Files'), []       # a copy: same elements
+                if f == 'list' and isinstance(a[0], ast.Name) and env.get(a[0].id) == 'Ints':
+                    return a[0].id, 'Ints', []
                 if f == 'list' and isinstance(a[0], ast.Call) and ast.unparse(a[0].func) == 'range' \
                         and not a[0].keywords and len(a[0].args) in (1, 2):
                     e = self.ex(env, loop)
@@ -913,7 +952,7 @@ class _LoopFn:
         for n in ast.walk(v):
             if isinstance(n, ast.comprehension):
                 if n.ifs or n.is_async or not isinstance(n.target, ast.Name) or not (
-                        isinstance(n.iter, ast.Name) and env.get(n.iter.id) in ('Files', 'Ints')):
+                        isinstance(n.iter, ast.Name) and env.get(n.iter.id) in ('Files', 'Ints', 'FilesT')):
                     raise CannotTranslate(f'generator in a message: {ast.unparse(v)[:60]}')
                 local.add(n.target.id)
         for n in ast.walk(v):
@@ -938,8 +977,8 @@ class _LoopFn:
                     continue
             if isinstance(n, ast.Attribute) and n.attr == 'join' and isinstance(n.value, ast.Constant):
                 continue
-            if (isinstance(n, ast.Subscript) and isinstance(n.value, ast.Name) and env.get(n.value.id) in ('Files', 'Ints')
-                    and isinstance(n.slice, ast.Constant) and isinstance(n.slice.value, int)
+            if (isinstance(n, ast.Subscript) and isinstance(n.value, ast.Name)
+                    and env.get(n.value.id) in ('Files', 'Ints', 'FilesT') and isinstance(n.slice, ast.Constant) and isinstance(n.slice.value, int)
                     and not isinstance(n.slice.value, bool)):
                 guards.append(f'(Option.isSome (Torf.Loop.getIdx {n.value.id} (({n.slice.value}) : Int)))')
                 continue
@@ -963,7 +1002,7 @@ class _LoopFn:
             if isinstance(v, ast.Name) and env.get(v.id) == self.ret:
                 return f'.ret {v.id}'
             lv = self.listval(v, env, loop)
-            if lv is not None and lv[1] in (None, self.ret):
+            if lv is not None and (lv[1] in (None, self.ret) or (self.ret, lv[1]) == ('Files', 'FilesT')):
                 return '\n'.join(self.guarded(lv[2], [f'.ret {lv[0]}']))
             raise CannotTranslate(f'return value {ast.unparse(v)} is not a list of {"files" if self.ret == "Files" else "integers"}')
         if self.ret == 'Int':
@@ -1064,7 +1103,8 @@ class _LoopFn:
                 x = c.func.value.id
                 return [f'let {x} : List Nat := {x} ++ [{r}]'] + cont(env)
             if (isinstance(c.func, ast.Attribute) and isinstance(c.func.value, ast.Name) and len(c.args) == 1
-                    and not c.keywords and (env.get(c.func.value.id), c.func.attr) in
+                    and not c.keywords and c.func.value.id not in self.maybe_tuple
+                    and (env.get(c.func.value.id), c.func.attr) in
                     (('Ints', 'append'), ('Ints', 'remove'), ('IntSet', 'add'))):
                 x, v = c.func.value.id, self.ex(env, loop).int_(c.args[0])
                 if c.func.attr == 'remove':       # removes the first occurrence; ValueError if there is none
